@@ -82,6 +82,9 @@ def check_ranges(ctx: core.Ctx, ranges: list[str], stream: str) -> None:
         rf = next(it)
         MC.clear_caches()
         tb = E.truth_of(t, ENVS)
+        if tb == E.TIMEOUT:
+            ctx.timeouts += 1
+            continue
         if tb is None:
             ctx.violate(f"marker-unparsable:{r}", f"marker {t!r} made from range {r!r} is rejected by poetry-core's parser", {"range": r})
             continue
@@ -108,6 +111,9 @@ def check_markers(ctx: core.Ctx, markers: list[tuple[str, bool]], stream: str) -
     for rec, (m, pyonly) in zip(recs, markers):
         MC.clear_caches()
         tb = E.truth_of(m, ENVS)
+        if tb == E.TIMEOUT:
+            ctx.timeouts += 1
+            tb = None
         ok = rec.get("ok", False) and tb is not None
         ctx.case("m:" + m, nontrivial=ok, sample={"marker": m, "range": str(rec.get("result"))} if ok else None)
         ctx.count(("gpc:pyonly:" if pyonly else "gpc:general:") + ("ok" if rec.get("ok") else rec.get("error", "?")))
